@@ -347,6 +347,8 @@ pub(crate) fn rfc1071_checksum(bytes: &[u8]) -> u16 {
             sum += bytes[i + 1] as u32;
         }
     }
+    // fold the carries twice: the first fold may carry again
+    let sum = (sum >> 16) + (sum & 0xffff);
     !((sum >> 16) + sum) as u16
 }
 
